@@ -24,6 +24,11 @@ CHECKS = {
             'transaction phase (never reversed; commit only through all_voted ∧ all_yes), R03d decisions on Prepared transactions and '
             'completion are logged before release, R03e no unlogged removal of a logged transaction',
             'MIR reachability under a phase assumption (abstract evaluation of phase tests), cut-reachability over Ok-edges, call-graph effect rule'),
+    'C05': ('§3 C05', 'R05a the adjacency read-modify-write runs under a lock held in the function or at every call site, R05b '
+            'create/delete link the same (list, endpoint, undirected-only) triples and delete_node\'s two branches agree, R05c the edge '
+            'record is stored only after node_exists of both endpoints, R05d delete_node reads both edge lists, deletes incident edges '
+            'and both list keys before/with the node',
+            'RMW detection by def-use slices, guard live ranges with held-on-entry summaries over the call graph, table agreement'),
     'C10': ('§3 C10', 'R01a persist-before-mutate of term/vote (cut-reachability over Ok-edges of the persist call, all write sites '
             'in the workspace), R10a every log growth site reaches success only through a successful persist, R10c recovery '
             'table covers every record the node writes and keeps the first vote of a term, R02b tail repair on reopen, R02e replay '
